@@ -253,6 +253,26 @@ impl<'a, 'tcx> Cx<'a, 'tcx> {
                     }
                     Some(mir::interpret::GlobalAlloc::Memory(alloc)) => {
                         o.push(("mem".into(), J::Bool(true)));
+                        // `&[u8; N]`: byte-string constants (format_args! templates)
+                        if let ty::Ref(_, inner, _) = ty.kind() {
+                            if let ty::Array(elem, len) = inner.kind() {
+                                if *elem == tcx.types.u8 {
+                                    if let Some(n) = len.try_to_target_usize(tcx) {
+                                        let n = n as usize;
+                                        let off = ptr.into_raw_parts().1.bytes_usize();
+                                        let a = alloc.inner();
+                                        if n <= 4096 && off + n <= a.len() {
+                                            let bytes = a.inspect_with_uninit_and_ptr_outside_interpreter(off..off + n);
+                                            let mut hex = String::with_capacity(2 * n);
+                                            for b in bytes {
+                                                hex.push_str(&format!("{b:02x}"));
+                                            }
+                                            o.push(("bytes_hex".into(), J::Str(hex)));
+                                        }
+                                    }
+                                }
+                            }
+                        }
                         // `&Enum::Variant` of a field-less enum (promoted constants such as `&Stage::Parse`)
                         if let ty::Ref(_, inner, _) = ty.kind() {
                             if let ty::Adt(adt, _) = inner.kind() {
